@@ -182,6 +182,7 @@ def _symbolic_one(eng, node, st: State, fi, kind, g, desc, restore):
     else:
         raise Unsupported(f"comprehension over {desc.kind}")
     x = models.wrap_elem(eng, st, xval, ety)
+    mark = next(sym._fresh)  # every symbol created from here on by the probe is specific to the element: skolemised below
     # ---- evaluate filter and element expression once, on the symbolic element -------------------------
     saved_pure = eng.pure
     probe = st.copy()
@@ -231,6 +232,10 @@ def _symbolic_one(eng, node, st: State, fi, kind, g, desc, restore):
                         _no_alloc(s5, alloc_before, node)
                         paths.append((_delta(base_len, s5), v, None, None))
     restore(st)
+    # symbols introduced while evaluating the body on ONE element (results of contract calls, clock reads ...) become functions of
+    # the element: each element has its own
+    sk = _Skolem(mark, bound[0])
+    paths = [(sk.term(c), sk.sv(a), sk.sv(b), e) for c, a, b, e in paths]
     # ---- exceptional elements ----------------------------------------------------------------------------
     exc_paths = [(c, e) for c, _, _, e in paths if e is not None]
     results = []
@@ -268,7 +273,24 @@ def _symbolic_one(eng, node, st: State, fi, kind, g, desc, restore):
             d2 = type(desc)("list", ref=lst)
             return results + _symbolic_one(eng, node, normal, fi, kind, g, d2, restore)
         if has_filter:
-            raise Unsupported(f"filtered list comprehension over a symbolic list at line {node.lineno}")
+            # filtered list: an order-preserving selection.  src(j) = index of the j-th kept element, dst = its inverse on kept indices
+            r = normal.alloc()
+            m = sym.fresh_int("flen")
+            seq = sym.fresh_const("fcomp", sym.SeqArrS)
+            src = z3.Function(sym.fresh_name("fsrc"), sym.IntS, sym.IntS)
+            dst = z3.Function(sym.fresh_name("fdst"), sym.IntS, sym.IntS)
+            j, j2 = sym.fresh_int("j"), sym.fresh_int("j2")
+            ib = bound[0]
+            at = lambda term, idx: z3.substitute(term, (ib, idx))
+            normal.assume(z3.And(m >= 0, m <= n))
+            normal.assume(z3.ForAll([j], z3.Implies(z3.And(j >= 0, j < m), z3.And(src(j) >= 0, src(j) < n, at(keep_cond, src(j)),
+                                                                                  z3.Select(seq, j) == at(val_t, src(j)), dst(src(j)) == j))))
+            normal.assume(z3.ForAll([j, j2], z3.Implies(z3.And(j >= 0, j < j2, j2 < m), src(j) < src(j2))))
+            normal.assume(z3.ForAll([ib], z3.Implies(z3.And(member, keep_cond), z3.And(dst(ib) >= 0, dst(ib) < m, src(dst(ib)) == ib))))
+            normal.heap.c_seq = z3.Store(normal.heap.c_seq, r, seq)
+            normal.heap.c_len = z3.Store(normal.heap.c_len, r, m)
+            ref = SRef(r, TList(vty))
+            return results + [(normal, models.SGen(ref) if kind == "gen" else ref)]
         r = normal.alloc()
         seq = sym.fresh_const("comp", sym.SeqArrS)
         normal.assume(z3.ForAll(bound, z3.Implies(member, z3.Select(seq, bound[0]) == val_t)))
@@ -361,3 +383,53 @@ def _only_through_injective(t, b):
             walk(c, under)
     walk(t, False)
     return ok
+
+
+class _Skolem:
+    def __init__(self, mark, bound):
+        self.mark, self.bound, self.map = mark, bound, {}
+
+    def term(self, t):
+        import re
+        consts = {}
+        seen, stack = set(), [t]
+        while stack:
+            x = stack.pop()
+            if x.get_id() in seen:
+                continue
+            seen.add(x.get_id())
+            if z3.is_const(x) and x.decl().kind() == z3.Z3_OP_UNINTERPRETED:
+                m = re.search(r"!(\d+)$", x.decl().name())
+                if m and int(m.group(1)) > self.mark and not z3.eq(x, self.bound):
+                    consts[x.decl().name()] = x
+            elif z3.is_quantifier(x):
+                stack.append(x.body())
+            else:
+                stack.extend(x.children())
+        subs = []
+        for name, c in consts.items():
+            if name not in self.map:
+                self.map[name] = z3.Function("sk_" + name, self.bound.sort(), c.sort())(self.bound)
+            subs.append((c, self.map[name]))
+        return z3.substitute(t, *subs) if subs else t
+
+    def sv(self, v):
+        if v is None:
+            return None
+        if isinstance(v, sym.SInt):
+            return sym.SInt(self.term(v.t))
+        if isinstance(v, sym.SBool):
+            return sym.SBool(self.term(v.t))
+        if isinstance(v, sym.SStr):
+            return sym.SStr(self.term(v.t))
+        if isinstance(v, (sym.SAny,)):
+            return sym.SAny(self.term(v.t), v.ty)
+        if isinstance(v, sym.SRef):
+            return sym.SRef(self.term(v.t), v.ty)
+        if isinstance(v, sym.STuple):
+            return sym.STuple([self.sv(x) for x in v.items])
+        if isinstance(v, sym.SRec):
+            return sym.SRec(v.ci, {k: self.sv(x) for k, x in v.fields.items()})
+        if isinstance(v, sym.SEnum):
+            return sym.SEnum(v.ci, self.term(v.idx))
+        return v
